@@ -17,6 +17,21 @@ CLAIMED = {
     "C05": dict(level="exploration", ref="DESIGN.md §3 C05",
         text="For each (input, command line): one canonical-schedule run, then 8 (quick) / 24 (thorough) runs under random, PCT and starvation policies with capped queues and benign I/O faults; all listed outputs must be byte-identical (WARN lines as a multiset). Distinct interleavings and collector arrival orders are measured.",
         note="Thread switches happen only at channel operations, spawn, join and thread exit; sound for this code base because all cross-thread effects are such operations plus two flags read at loop heads."),
+    "C03": dict(level="exploration", ref="DESIGN.md §3 C03",
+        text="Well-framed streams with arbitrary headers (0/1/batch multiples/2-260 packets, thorough to 20000; payloads 0-10000 bytes or word sequences) x filter x 3-4 payload-handling paths (view rdh from file=seek and pipe=read-discard, check sanity skipped/loaded, data view) under schedules, capped queues, short reads/EINTR; oracle = independent chain walker: rows, offsets, decoded fields, word bytes, rdhs_seen/rdhs_filtered/payload_size.",
+        note="Walker and RDH decoder in itsgen are written from the framing rules, not from the tool's scanner; word offsets only judged when payload layout agrees with the header's data format."),
+    "C08": dict(level="exploration", ref="DESIGN.md §3 C08",
+        text="Well-framed arbitrary streams x filter kind x EVERY distinct value present (+1 absent) x file/stdout destination x file/pipe source under schedules, capped reader->writer queue, short reads/writes, EINTR; oracle: byte-exact concatenation of the walker's matching packets, partition over all values, each output well framed, idempotence, Filter Stats count.",
+        note="Trusts the independent chain walker; an empty input is expected to exit non-zero."),
+    "C14": dict(level="exploration", ref="DESIGN.md §3 C14",
+        text="Arbitrary / word-payload / conforming well-framed streams x checks, views, filtered writing x filters x JSON/TOML x file/pipe x schedules x benign I/O faults; every statistic the statement lists is recomputed by the independent chain walker (incl. all 20 trigger-bit counters, HBFs, layer/staves over analysed packets) and compared with the statistics file and the report rows.",
+        note="Links are compared as a set (views do not sort the list); unique error codes only when the run finalises its statistics."),
+    "C17": dict(level="exploration", ref="DESIGN.md §3 C17",
+        text="Stop conditions placed inside active work: stop event injected at step 1 / last / uniformly drawn decision steps; stdout failing (EPIPE/ENOSPC) after 0 / len-1 / uniform N bytes in views, filtered data, statistics and report; error cap; mid-stream fatal framing error; crossed with random/PCT/starvation schedules and queue capacities capped to 1..8 (full queues). Oracle: no panic, no deadlock, all managed threads finished within the step budget, exit status allowed, partial -o file = whole packets and a prefix of the expected data.",
+        note="The ctrlc helper thread and real signal delivery are replaced by the store they perform; bounded liveness = 50 x reference steps + 5000."),
+    "C18": dict(level="fault_enumeration", ref="DESIGN.md §3 C18",
+        text="Crash-point enumeration: for small streams EVERY cut position 0..len, for larger ones every structural boundary (+-1) plus seeded positions; file (shorter file) and pipe (seam answers EOF at byte k); five check modes (findings compared) and views (rows compared); conforming and corrupted multi-link streams; under schedules. Oracle: normal end, findings below the incomplete packet identical to the untruncated run, view rows a prefix.",
+        note="Frame messages are compared only when the frame end they quote lies before the cut."),
 }
 
 NOT_BUILT_REASON = "check not built yet in this session (planned in DESIGN.md §3); not claimed until its machinery exists"
